@@ -352,6 +352,14 @@ func runC08(job common.Job, em *emitter) {
 							comp := t > 0 && cur == t
 							c := c08Case{Total: t, Current: cur, Avail: w, Style: si, StyleName: st.Name, Completed: comp}
 							one(c, filler, st)
+							if t <= 0 && cur == t {
+								// a bar of unknown total completed while its total is still
+								// not positive (SetTotal(-1, true) on an empty input): completed,
+								// and still nothing to fill
+								c.Completed = true
+								one(c, filler, st)
+								c.Completed = false
+							}
 							if cur > 0 {
 								c.Refill = cur / 3
 								one(c, filler, st)
